@@ -31,6 +31,11 @@ TRIVIA = ["/* a *\ufeff/ b */", "/* \ufeff */", "// \ufeff x\n", "/* *\u200b/ x 
           "/* é */", "// é\n", "/*\n*/", "/* x **/", "/* a */ // b\n", "/* } */", "/* \"s\" weighted 1, */"]  # fmt: skip
 
 
+AFTER_TRIVIA = [" ", "\n", "/* c */", "// c\n", "/* a */ /* b */", "/* m\nl */", "/**/"]
+POISON = ['def e { return "a" weighted 1 } /* never closed', 'def e { /* never closed return "a" weighted 1 }', "/*", "/* only a comment */", 'def e { return "a" weighted 1 } // open line',
+          'def e { return "a" weighted 1 @ }', 'def e { return "a" weighted }', "", 'def e { salt: "unterminated }', "def e { /* a */ /* b", 'def e { return "a" weighted 1 } /* x */ /*']
+
+
 def probes(ast):
     _, _n, _s, split, c = ast
     fields = list(dict.fromkeys(list(split or ()) + rp.cond_ids(c)))
@@ -78,7 +83,7 @@ def check_variants(acc, name, base_text, gen):
     bp = impl.parse(base_text)
     bb = impl.build(base_text)
     if bp[0] != "ok" or bb[0] != "ok":
-        acc.violation({"kind": "trivia:base", "sub": "build", "text": base_text, "observed": [list(bp[:2]) if bp[0] != "ok" else "ok", list(bb[:2]) if bb[0] != "ok" else "ok"]})
+        acc.violation({"kind": "trivia:base", "sub": "build", "text": base_text, "base": name, "observed": [list(bp[:2]) if bp[0] != "ok" else "ok", list(bb[:2]) if bb[0] != "ok" else "ok"]})
         return
     envs = probes(ast)
     want = outcomes(bb[1], envs)
@@ -175,6 +180,22 @@ def _work(units):
                             yield (g1, it1 + "|" + it2, "twogaps"), " ".join(lexs[:g1]) + it1 + " ".join(lexs[g1:g2]) + it2 + " ".join(lexs[g2:])
 
             check_variants(acc, name, " ".join(lexs), gen())
+        elif u[0] == "after":
+            # trivia must stay meaningless whatever text was compiled before in this process (a lexer object or
+            # comment state kept between compilations)
+            _, name, poison = u
+            lexs = eb.lexemes(B[name])
+            n0 = len(acc.viol)
+
+            def gen_after():
+                for key, text in variants_single(lexs, AFTER_TRIVIA, gaps=lambda n: (0, 2, n // 2, n - 1, n)):
+                    impl.build(poison)
+                    yield (key[0], key[1], "after"), text
+
+            impl.build(poison)
+            check_variants(acc, name, " ".join(lexs), gen_after())
+            for v in acc.viol[n0:]:
+                v["before"] = poison
         elif u[0] == "lexseq":
             _, first, n = u
             for rest in product(LEXSEQ, repeat=n - 1):
@@ -202,6 +223,8 @@ def units(tier):
         for nme in ("salt", "splitter_test"):
             out += [("pair", nme, it) for it in TRIVIA]
             out += [("twogaps", nme, it) for it in ("/* a */", "// a\n")]
+    for nme in ("salt", "comments") if tier == "quick" else names:
+        out += [("after", nme, p) for p in POISON]
     n, m = (5, 3) if tier == "quick" else (6, 4)
     for k in range(1, n + 1):
         out += [("lexseq", f, k) for f in LEXSEQ]
@@ -229,5 +252,13 @@ def replay(data):
     lexs = eb.lexemes(B[data["base"]])
     acc = progcheck.Acc()
     key = (0 if data.get("sub") == "eval" else 1, data.get("trivia", ""), "replay")
-    check_variants(acc, data["base"], " ".join(lexs), [(key, data["text"])])
-    return bool(acc.viol), (acc.viol[0]["why"] if acc.viol else "variant agrees with base")
+
+    def gen():
+        if "before" in data:
+            impl.build(data["before"])
+        yield key, data["text"]
+
+    if "before" in data:
+        impl.build(data["before"])
+    check_variants(acc, data["base"], " ".join(lexs), gen())
+    return bool(acc.viol), (acc.viol[0].get("why") or f"the base program itself fails: {acc.viol[0].get('observed')}" if acc.viol else "variant agrees with base")
